@@ -149,7 +149,7 @@ def gen_labels(ctx: Ctx):
     for b in chosen:
         for o in offs:
             out.append((b, o))
-        for _ in range(ctx.budget(20, 200)):
+        for _ in range(ctx.budget(20, 150)):
             out.append((b, rng.randint(-2_000_000, 2_000_000)))
         # TAI-side switch instants: boundary + TAI-UTC (so that TAI/GPS/TT labels sit on the switch)
         k = bounds.index(b)
@@ -159,7 +159,7 @@ def gen_labels(ctx: Ctx):
                 for o in (0, 1, -1, 5, -5):
                     out.append((b, int(d_us) + o))
     lo, hi = int(bounds[0] + F(1, 2)), 2488069  # 1961-01-01 .. 2100-01-01
-    for _ in range(ctx.budget(300, 20000)):
+    for _ in range(ctx.budget(300, 13000)):
         out.append((F(rng.randint(lo, hi)) - F(1, 2), rng.randint(0, DAY_US - 1)))
     return out
 
@@ -340,7 +340,7 @@ def route_search(ctx: Ctx, T_):
     pairs = [(a, b) for a in SCALES for b in SCALES]
     lines, want = [], []
     try:
-        for _ in range(ctx.budget(400, 6000)):
+        for _ in range(ctx.budget(400, 4000)):
             k = rng.choice([0, 1, 2, 3, 4, 5, 6, 8, 10, 12, 16])
             edges = rng.sample(pairs, min(k, len(pairs)))
             if rng.random() < 0.7:
